@@ -1282,6 +1282,10 @@ def run(chk, replay=None):
                    and any(sc.startswith("ON") and " RM " in sc for sc in c.ops):
                     fl.add(KEY_REUSE)
                 plain_bad.append((c, idx, "[non-ASan build] " + msg, fl))
+        # F-23 needs the allocator to hand the address of the destroyed Channel out again: where it does not (other glibc
+        # tunables, a hardened allocator) the witness simply passes -- "not reproduced", nothing is printed, no obligation fails
+        chk.cov["F23_address_reuse_reproduced"] = any(KEY_REUSE in b[3] for b in plain_bad)
+        chk.cov["plain_build_cases"] = len(plain_cases)
     corr_bad, oracle_bad, known_hits = [], [], {}
     for (c, idx, msg, fl) in plain_bad:
         if fl and all(k in known for k in fl):
